@@ -269,3 +269,25 @@ package receiver
 //@   at[C11] (*receiver.Transfer).createDevice: assert [node-only-under-its-option] rdevOnWire(rt.Opts.PreserveDevices, rt.Opts.PreserveSpecials, f.Mode)
 //@   ensures[C11] [node-made-under-its-option] err == nil && old(rt.Dest) != "" && !old(rt.Opts.DryRun) && rdevOnWire(old(rt.Opts.PreserveDevices), old(rt.Opts.PreserveSpecials), old(f.Mode)) && !(old(rt.Opts.PreserveLinks) && mdIsLink(old(f.Mode))) ==> ghost.devCalls == old(ghost.devCalls) + 1
 //@   at[C11] receiver.symlink: assert [symlink-target-as-sent] arg0 == rt.DestRoot && arg1 == f.LinkTarget && arg2 == f.Name && rt.Opts.PreserveLinks && mdIsLink(f.Mode)
+
+// ---------------------------------------------------------------- C15/C14: the id lists after the file list
+// One id list on the wire: (int32 id != 0, byte n, n name bytes)* int32 0.
+// idListEnd(r, p) is the position just behind the list that starts at p.
+// Exactly under -o one list is read (users), then exactly under -g one list
+// (groups): the sender writes them under the same conditions
+// (sender: trailer-as-protocol-27).
+//@ spec rec func idListEnd(r: int, p: int): int = ite(i32At(r, p) == 0, p + 4, idListEnd(r, p + 5 + wireByte(r, p + 4)))
+//@ func (*receiver.Transfer).recvIdMapping1
+//@   modifies rsyncwire.CountingReader.BytesRead, ghost.rpos
+//@   ensures[C15,C14] [one-id-list-consumed] err == nil ==> select(ghost.rpos, data(rt.Conn.Reader)) == idListEnd(data(rt.Conn.Reader), old(select(ghost.rpos, data(rt.Conn.Reader))))
+//@   loop[C15,C14] 0: invariant [list-end-unchanged] idListEnd(data(rt.Conn.Reader), select(ghost.rpos, data(rt.Conn.Reader))) == idListEnd(data(rt.Conn.Reader), old(select(ghost.rpos, data(rt.Conn.Reader))))
+//@ spec func afterListIf(c: bool, r: int, p: int): int = ite(c, idListEnd(r, p), p)
+//@ func (*receiver.Transfer).RecvIdList
+//@   modifies rsyncwire.CountingReader.BytesRead, ghost.rpos
+//@   ensures[C15,C14] [uid-list-under-o-then-gid-list-under-g] err == nil ==> select(ghost.rpos, data(rt.Conn.Reader)) == afterListIf(rt.Opts.PreserveGid, data(rt.Conn.Reader), afterListIf(rt.Opts.PreserveUid, data(rt.Conn.Reader), old(select(ghost.rpos, data(rt.Conn.Reader)))))
+// flistEnd: the stream position just behind the end-of-list byte (a label
+// used by ReceiveFileList's trailer clause only).
+//@ ghost flistEnd: int
+//@ func (*receiver.Transfer).ReceiveFileList
+//@   at[C15,C14] receiver.sortFileList: set ghost.flistEnd = select(ghost.rpos, data(rt.Conn.Reader))
+//@   at[C15,C14] (*rsyncwire.Conn).ReadInt32: assert [io-error-flag-follows-the-id-lists] select(ghost.rpos, data(rt.Conn.Reader)) == afterListIf(rt.Opts.PreserveGid, data(rt.Conn.Reader), afterListIf(rt.Opts.PreserveUid, data(rt.Conn.Reader), ghost.flistEnd))
